@@ -727,6 +727,8 @@ func ruleC02(c *Ctx) {
 	c.rule("C02-R1", "context wiring: dsig validation contexts are constructed only in validationContext(), over sp.IDPCertificateStore, with ctx.Clock = sp.Clock; every Validate receiver in library scope is a validationContext() result")
 	c.rule("C02-R2", "fatal errors at all four verify sites (SSO root, per-assertion, LogoutResponse, LogoutRequest): only ErrMissingSignature at a root site continues")
 	c.rule("C02-R3", "no downgrade: on the ErrMissingSignature continuation the trust flag of the returned object is the constant false")
+	c.rule("C02-R5", "the trust store is read-only for the library: no store, append or mutating call reaches sp.IDPCertificateStore or the certificates it hands out (filtered view of the C17-R1 effect scan) — an in-place filter over Certificates() rewrites the application's Roots and un-trusts a key")
+	configUntouched(c, "C02-R5", "the IdP certificate store", []string{"IDPCertificateStore"})
 	c.rule("C02-R4", "only goxmldsig decides that a message is unsigned: with validation enabled every accepting path of the three validators has called dsig Validate on the parsed root element (no cheaper pre-check may classify a message as unsigned and skip the verification of a signature that is present but placed unusually)")
 	ctxWiring(c, "C02-R1")
 	total := 0
